@@ -34,7 +34,8 @@ Open findings on the current tree (known_findings.d/C08.json, findings_inbox/C08
 
 Oracle corrections made while building (false alarms, not findings): identical duplicated Content-Length values may
 be collapsed to one value in the returned headers (RFC 9110 8.6 allows it); invalid framing headers on bodiless
-responses (HEAD/204/304) are EITHER, not reject.
+responses (HEAD/204/304) are EITHER, not reject - EITHER about accepting or rejecting the response only: delivering
+body bytes for such a response is always a violation.
 
 Sensitivity (quick tier, seed 1, scratch copies of /repo/tornado, one mutant at a time):
   M1 _read_message: skip the 1xx "Content-Length/Transfer-Encoding" check          -> caught  C08.reject_returned_response
@@ -45,6 +46,12 @@ Sensitivity (quick tier, seed 1, scratch copies of /repo/tornado, one mutant at 
   M4 _GzipMessageDelegate.data_received: decompressed-size check removed           -> caught  C08.body_exceeds_max_body_size
   M5 _read_chunked_body: CRLF after chunk data not checked                         -> caught  C08.reject_returned_response
   M6 _read_body: unequal duplicate Content-Length values accepted                  -> caught  C08.reject_returned_response
+  M8 _read_body: the 204 check lost its `is_chunked or` term (204 + Transfer-Encoding: chunked delivers the chunk data)
+     -> caught at seeds 1,2,3  C08.body_delivered_for_bodiless_response.  Found by independent mutation testing: the
+     "invalid framing headers on a body-less response" EITHER class only compared the status, and the only 204+TE case sent
+     an empty chunked body.  New universal clause: a 204 / 304 / response to HEAD never delivers a non-empty body (response.body
+     and streaming chunks), whatever the class; new mutations bodiless_{te,cl,both}_payload put TE: chunked + chunk data,
+     Content-Length > 0 + data, or both behind a 204 / 304 / HEAD response (they keep the case's own body-less form).
   M7 SimpleAsyncHTTPClient.initialize: `self.max_body_size = max_body_size or max_buffer_size` (0 treated like None)
      -> caught at seeds 1,2,3  C08.body_exceeds_max_body_size (max_body_size=0, 1200-byte body delivered).  Found by
      independent mutation testing: limits used to be clamped to >= 1; now max_body_size=0 is a placement of its own in the
@@ -111,7 +118,11 @@ ACCEPT_VARIANTS = ["cl_dup_same", "cl_list_same", "cl_leading_zeros", "te_case"]
 EITHER_MUTS = [
     "bare_lf", "bare_lf_one", "obs_fold", "leading_crlf", "chunk_ext", "chunk_trailer",
     "nobody_cl_nonzero_204", "nobody_te_204", "version_20", "version_09",
+    # a body-less response (204 / 304 / answer to HEAD) that announces a body AND is followed by those bytes: the client
+    # may ignore or reject the header, but must never deliver the bytes as the body of this response
+    "bodiless_te_payload", "bodiless_cl_payload", "bodiless_both_payload",
 ]
+BODILESS_PAYLOAD = {"bodiless_te_payload", "bodiless_cl_payload", "bodiless_both_payload"}
 FIRST_OR_ERROR = ["trailing_bytes"]
 
 CL_GROUP = set(CL_REJECT) | {"cl_dup_same", "cl_list_same", "cl_leading_zeros"}
@@ -270,6 +281,11 @@ def build(case):
         method = "GET" if method == "HEAD" else method
     if mut in ("cl_short",) and not payload:
         payload = b"xy"
+    if mut in BODILESS_PAYLOAD:
+        if not (method == "HEAD" or code in (204, 304)):
+            code = 204  # keep the case's own body-less form (HEAD / 204 / 304) if it has one
+        if not payload:
+            payload = b"hello"
     nobody = method == "HEAD" or code in (204, 304)
     W, gzkind = encode_body(payload, enc, case["trunc"])
     if mut == "cl_short" and not W:
@@ -341,6 +357,12 @@ def build(case):
             fr = []
         if mut == "nobody_te_204":
             fr = [("Transfer-Encoding", b" chunked", "chunked")]
+    if mut in BODILESS_PAYLOAD:
+        fr = []
+        if mut in ("bodiless_cl_payload", "bodiless_both_payload"):
+            fr.append(("Content-Length", L1(" %d" % len(W)), str(len(W))))
+        if mut in ("bodiless_te_payload", "bodiless_both_payload"):
+            fr.append(("Transfer-Encoding", b" chunked", "chunked"))
     pos = min(case["fpos"], len(hdrs))
     hdrs[pos:pos] = fr
 
@@ -422,6 +444,11 @@ def build(case):
             wire_body = W[:1] or b"x"
         elif mut == "nobody_te_204":
             wire_body = b"0\r\n\r\n"
+        elif mut == "bodiless_cl_payload":
+            wire_body = W
+        elif mut in BODILESS_PAYLOAD:
+            wire_body = b"".join(sz + b"\r\n" + data + b"\r\n"
+                                 for sz, data in chunk_pieces(W, case["chunks"], case["hexfmt"])) + b"0\r\n\r\n"
     elif framing == "chunked" and mut not in TE_REJECT:
         pieces = chunk_pieces(W, case["chunks"], case["hexfmt"])
         k = 0  # index of the mutated piece
@@ -583,6 +610,8 @@ def build(case):
         labels.add("interim_1xx")
     if method == "HEAD":
         labels.add("head")
+    if mut in BODILESS_PAYLOAD:
+        labels.add("bodiless_with_payload_%s" % ("head" if method == "HEAD" else code))
     if code in (204, 304):
         labels.add("no_body_status")
         if not fr and end == "open":
@@ -802,6 +831,13 @@ def evaluate(ctx, case, b, st_, tag):
                  dict(base, delivered=len(delivered_body), max_body_size=b.max_body_size), sig=sig)
         return summ
 
+    if b.nobody and delivered_body:
+        # whatever the class: 204 / 304 / a response to HEAD has no body - bytes after its header block belong to the
+        # next response (or are garbage), also when Content-Length / Transfer-Encoding announce a body
+        ctx.fail("C08.body_delivered_for_bodiless_response",
+                 dict(base, code=b.code, method=b.method, delivered=delivered_body[:100], delivered_len=len(delivered_body)))
+        return summ
+
     def compare_response(clause_prefix, exp_body):
         r = o[1]
         if r.code != b.code:
@@ -889,6 +925,7 @@ def check_header_callback(ctx, base, b, hlines):
 
 DETERMINISTIC_EITHER = {"bare_lf", "bare_lf_one", "obs_fold", "leading_crlf", "chunk_ext", "chunk_trailer",
                         "nobody_cl_nonzero_204", "nobody_te_204", "version_20", "version_09",
+                        "bodiless_te_payload", "bodiless_cl_payload", "bodiless_both_payload",
                         "framing_mut_on_bodiless", "wire_over_max", "header_over_limit"}
 
 
